@@ -21,10 +21,12 @@ unsigned case_timeout_s() { return 1800; }
 //   coarser input (lg_k-2; p = 1 in theta_union_mixed, p = 0.5 in tuple_union_mixed) over the upper half of those keys and the rest; order alternates.
 // tuple_filter: every 16th key carries summary 3.0 (others 1.0); the derived sketch filter(summary > 2) estimates that sub-population
 //   (true count ceil(n/16)); odd trials filter the compact form.
+// tuple_union_theta_adapter: input A (lg_k+1, keys [0, 0.6n)) is an update_theta_sketch (or its unordered compact form) offered through
+//   compact_tuple_sketch(theta_sketch, summary, ordered = true); input B (lg_k-2, keys [0.4n, n)) is a tuple sketch; B first on even trials.
 // *_reuse: the sketch (resize factor = trial mod 4) / the union object is first driven into estimation mode with 4k
 //   unrelated keys, reset(), then used.
-enum Fam { F_THETA_P1, F_THETA_P05, F_TUPLE, F_THETA_UNION, F_TUPLE_UNION, F_THETA_UNION_MIXED, F_TUPLE_UNION_MIXED, F_THETA_REUSE, F_TUPLE_REUSE, F_THETA_UNION_REUSE, F_TUPLE_FILTER, F_N };
-static const char* FAM_NAME[] = {"theta_p1", "theta_p05", "tuple", "theta_union", "tuple_union", "theta_union_mixed", "tuple_union_mixed", "theta_reuse", "tuple_reuse", "theta_union_reuse", "tuple_filter"};
+enum Fam { F_THETA_P1, F_THETA_P05, F_TUPLE, F_THETA_UNION, F_TUPLE_UNION, F_THETA_UNION_MIXED, F_TUPLE_UNION_MIXED, F_THETA_REUSE, F_TUPLE_REUSE, F_THETA_UNION_REUSE, F_TUPLE_FILTER, F_TUPLE_UNION_ADAPTER, F_N };
+static const char* FAM_NAME[] = {"theta_p1", "theta_p05", "tuple", "theta_union", "tuple_union", "theta_union_mixed", "tuple_union_mixed", "theta_reuse", "tuple_reuse", "theta_union_reuse", "tuple_filter", "tuple_union_theta_adapter"};
 
 static std::vector<Cell> build_cells(bool thorough) {
   std::vector<Cell> cells;
@@ -166,6 +168,17 @@ void run_case(uint64_t idx, Rng& r) {
         s.reset();
         for (uint64_t i = 0; i < n; ++i) s.update(key(i), 1.0);
         tr.push_back(observe(s, n, fam, ctx + " rf=" + std::to_string(t & 3), n <= (1ULL << cell.lg_k)));
+        break;
+      }
+      case F_TUPLE_UNION_ADAPTER: {
+        auto a = update_theta_sketch::builder().set_lg_k(static_cast<uint8_t>(cell.lg_k + 1)).build();
+        auto b = update_tuple_sketch<double>::builder().set_lg_k(static_cast<uint8_t>(std::max<int>(5, cell.lg_k - 2))).build();
+        for (uint64_t i = 0; i < a_end; ++i) a.update(key(i));
+        for (uint64_t i = b_begin; i < n; ++i) b.update(key(i), 1.0);
+        auto u = tuple_union<double>::builder().set_lg_k(cell.lg_k).build();
+        auto offer_a = [&] { if (t & 2) { const compact_theta_sketch ca = a.compact(false); u.update(compact_tuple_sketch<double>(ca, 1.0)); } else u.update(compact_tuple_sketch<double>(a, 1.0)); };
+        if (t & 1) { offer_a(); u.update(b); } else { u.update(b); offer_a(); }
+        tr.push_back(observe(u.get_result(), n, fam, ctx));
         break;
       }
       case F_TUPLE_FILTER: {
